@@ -53,6 +53,10 @@ pub fn expected_response(msg: &Msg, plans: &[UnitPlan]) -> Vec<u8> {
             d.encode(&mut out);
         }
     }
+    // no query wrote anything: nothing at all, in particular no terminator
+    if plans.iter().zip(msg.units.iter()).all(|(p, u)| !u.header.query || (p.headers.is_empty() && p.respond.is_empty())) {
+        return Vec::new();
+    }
     if any {
         out.push(b'\n');
     }
@@ -107,7 +111,19 @@ fn case_strategy() -> impl Strategy<Value = Case> {
     // queries with probability 1/2; an indefinite block at the end is fine (consumed greedily)
     crate::fixtree::fixed_message(any::<bool>().boxed(), 6, 3, true, true).prop_flat_map(|msg| {
         let plans = succeeding_plans(&msg);
-        (Just(msg), plans).prop_map(|(msg, plans)| Case { msg, plans })
+        // now and then every query of the message is silent (its handler writes neither header nor
+        // data, e.g. a list query over an empty list): no output at all, so no terminator either.
+        // (A silent query next to one that does write is not generated: the property does not say
+        // whether the silent unit counts as a response unit between the separators.)
+        (Just(msg), plans, prop_oneof![15 => Just(false), 1 => Just(true)]).prop_map(|(msg, mut plans, silent)| {
+            if silent {
+                for p in plans.iter_mut() {
+                    p.headers.clear();
+                    p.respond.clear();
+                }
+            }
+            Case { msg, plans }
+        })
     })
 }
 
